@@ -967,16 +967,216 @@ def fmt_any(x):
 
 
 # --------------------------------------------------------------------------
-# export direction: abstract document -> Part (partitura API) -> save_mei / save_kern -> reload
+# export direction (O4): abstract document -> Part (partitura API) -> save_mei / save_kern -> reload
+#
+# The abstract document of the import direction is reused for the rhythm; on top of it
+#   doc["voices"][si][li]   voice number of layer li of staff si (unique over the part; numbered per staff block,
+#                           consecutively, or by a random permutation so that a voice number may equal the number of
+#                           ANOTHER staff)
+#   event["st"]             staff number per pitch (chord members individually) / of the rest: cross-staff placement
+#   doc["xopts"]["order"]   order in which the objects are added to the Part (layer by layer, by time, or by time
+#                           with the members of simultaneous chords of different voices interleaved)
 
 SYM = {1: "whole", 2: "half", 4: "quarter", 8: "eighth", 16: "16th", 32: "32nd", 64: "64th", 128: "128th", 256: "256th"}
 
-EXPORT_W = {"space": 0.0, "mrest": 0.0, "short_layer": 0.0, "grace": 0.0, "pickup": 0.0, "meter_change": 0.0,
-            "key_change": 0.0, "repeat": 0.0, "ending": 0.0, "explicit_natural": 0.0, "uniform_layers": 1}
+EXPORT_W = {"space": 0.0, "mrest": 0.0, "short_layer": 0.0, "grace": 0.0, "pickup": 0.2, "meter_change": 0.0,
+            "key_change": 0.0, "repeat": 0.0, "ending": 0.0, "explicit_natural": 0.1, "uniform_layers": 1, "tie": 0.2}
+
+PLAIN = {}
+for _v in (1, 2, 4, 8, 16, 32, 64):
+    for _d in (0, 1, 2):
+        PLAIN.setdefault(den_dur(_v, _d, None), (_v, _d))
+
+
+def measure_lengths(doc):
+    den = denote(doc)
+    ms = den["mstarts"] + [den["end"]]
+    return [b - a for a, b in zip(ms, ms[1:])]
+
+
+def layer_events(doc, si, li):
+    """[(measure index, [(original event dict, tuplet ratio, duration)])] of one layer."""
+    out = []
+    meter = tuple(doc["meter"])
+    for mi, m in enumerate(doc["measures"]):
+        if m.get("meter"):
+            meter = tuple(m["meter"])
+        if li >= len(m["content"][si]):
+            out.append((mi, []))
+            continue
+        layer = m["content"][si][li]
+        orig = list(_walk(layer))
+        fl = flat(layer)
+        out.append((mi, [(o, f.get("t"), ev_dur(f, meter)) for o, f in zip(orig, fl)]))
+    return out
+
+
+def fix_ties(doc):
+    """A tie flag needs a following note/chord with the same pitches in the same layer."""
+    for si in range(len(doc["staves"])):
+        for li in range(2):
+            seq = []
+            for mi, evs in layer_events(doc, si, li):
+                seq += [o for o, _, _ in evs] if evs else [None]
+            for a, b in zip(seq, seq[1:] + [None]):
+                if a is not None and a.get("tie"):
+                    if b is None or a["k"] not in ("n", "c") or b["k"] != a["k"] or b.get("p") != a.get("p"):
+                        a["tie"] = False
+
+
+def gen_xdoc(rng, fmt):
+    w = dict(EXPORT_W)
+    r = rng.random()
+    if r < 0.25:
+        w["tuplet"] = 0.0
+    elif r < 0.45:
+        w.update({"tuplet": 0.45, "chord": 0.35})
+    elif r < 0.55:
+        w.update({"chord": 0.5, "tuplet": 0.1})
+    nst = rng.choice([1, 2, 2, 2, 3, 3])
+    doc = gen_doc(rng, "kern" if fmt == "kern" else "mei", w, nstaves=nst)
+    for i, st in enumerate(doc["staves"]):
+        st["n"] = i + 1
+    decorate_export(rng, doc, fmt)
+    return doc
+
+
+def decorate_export(rng, doc, fmt):
+    nst = len(doc["staves"])
+    lens = measure_lengths(doc)
+    # ---- measure rests: one rest filling the measure (where the length is a single written value)
+    for mi, m in enumerate(doc["measures"]):
+        for si in range(nst):
+            for li in range(len(m["content"][si])):
+                if lens[mi] in PLAIN and rng.random() < 0.07:
+                    v, d = PLAIN[lens[mi]]
+                    m["content"][si][li] = [{"k": "r", "v": v, "d": d, "mrest": True}]
+    fix_ties(doc)
+    # ---- voice numbers
+    pairs = [(si, li) for si in range(nst) for li in range(len(doc["measures"][0]["content"][si]))]
+    r = rng.random()
+    if r < 0.2:
+        nums = [2 * si + li + 1 for si, li in pairs]
+        vmode = "block"
+    elif r < 0.4:
+        nums = list(range(1, len(pairs) + 1))
+        vmode = "seq"
+    else:
+        nums = rng.sample(range(1, max(len(pairs), 4) + 1), len(pairs))
+        vmode = "perm"
+    voices = [[None, None] for _ in range(nst)]
+    for (si, li), v in zip(pairs, nums):
+        voices[si][li] = v
+    doc["voices"] = voices
+    order = rng.choice(["layer", "layer", "time", "interleave"])
+    doc["xopts"] = {"order": order, "vmode": vmode, "cross": "none"}
+    # ---- cross-staff placement
+    for si, li in pairs:
+        for mi, evs in layer_events(doc, si, li):
+            for o, _, _ in evs:
+                if o["k"] in ("n", "c"):
+                    o["st"] = [si + 1] * len(o["p"])
+                else:
+                    o["st"] = [si + 1]
+    if nst < 2:
+        return
+    p = rng.choice([0.0, 0.15, 0.15, 0.3, 0.5])
+    if p == 0.0:
+        return
+    free = fmt == "mei" or rng.random() < 0.06
+    if fmt == "kern" and not free and any(x not in PLAIN for x in lens):
+        return
+    doc["xopts"]["cross"] = "free" if free else "block"
+
+    def other_staff(si, v):
+        others = [s for s in range(1, nst + 1) if s != si + 1]
+        # the shape of a voice numbered like another staff is weighted
+        if v in others and rng.random() < 0.7:
+            return v
+        return rng.choice(others)
+    for si, li in pairs:
+        v = voices[si][li]
+        for mi, evs in layer_events(doc, si, li):
+            if not evs:
+                continue
+            if free:
+                for o, _, _ in evs:
+                    if rng.random() >= p:
+                        continue
+                    ot = other_staff(si, v)
+                    if o["k"] == "c":
+                        r = rng.random()
+                        n = len(o["p"])
+                        if r < 0.5:
+                            o["st"][rng.randrange(n)] = ot
+                        elif r < 0.7:
+                            o["st"] = [ot] * n
+                        else:
+                            o["st"] = [ot if rng.random() < 0.5 else si + 1 for _ in range(n)]
+                    elif o["k"] == "n" or rng.random() < 0.3:
+                        o["st"] = [ot]
+            elif rng.random() < p:
+                # kern: every (voice, staff) pair is a spine that the loader places by its own durations, and save_kern
+                # fills only the gap before the first / after the last element of a pair in a measure: move a prefix
+                # or a suffix of the measure whose complement is a single written value; the chord at the boundary
+                # may be split between the staves
+                n = len(evs)
+                durs = [d for _, _, d in evs]
+                k = rng.randrange(n)
+                suffix = rng.random() < 0.5
+                block = list(range(k, n)) if suffix else list(range(0, k + 1))
+                rest = [i for i in range(n) if i not in block]
+                bnd = block[0] if suffix else block[-1]
+                split = evs[bnd][0]["k"] == "c" and rng.random() < 0.6
+                gap_other = sum((durs[i] for i in rest), F(0))
+                home = rest + ([bnd] if split else [])
+                gap_home = sum((durs[i] for i in range(n) if i not in home), F(0))
+                if (gap_other and gap_other not in PLAIN) or (home and gap_home and gap_home not in PLAIN):
+                    continue
+                ot = other_staff(si, v)
+                for i in block:
+                    o = evs[i][0]
+                    if i == bnd and split:
+                        j = rng.randrange(len(o["p"]))
+                        o["st"] = [ot if (x != j) else si + 1 for x in range(len(o["p"]))] if rng.random() < 0.5 else \
+                                  [ot if (x == j) else si + 1 for x in range(len(o["p"]))]
+                    else:
+                        o["st"] = [ot] * len(o["st"])
+
+
+def spine_pairs(doc):
+    """(voice, staff) pairs in use (notes and rests), sorted: the spines save_kern writes."""
+    out = set()
+    for si in range(len(doc["staves"])):
+        for li in range(2):
+            for mi, evs in layer_events(doc, si, li):
+                for o, _, _ in evs:
+                    for s in o.get("st", [si + 1]):
+                        out.add((voice_of(doc, si, li), s))
+    return sorted(out)
+
+
+def voice_of(doc, si, li):
+    return doc["voices"][si][li] if doc.get("voices") else 2 * si + li + 1
+
+
+def interior_gap(doc):
+    """True when some (voice, staff) pair has, inside a measure, an element after a hole: save_kern writes such a pair
+    as a spine with null tokens and load_kern places every spine by its own durations (known finding C19-K2)."""
+    for si in range(len(doc["staves"])):
+        for li in range(2):
+            for mi, evs in layer_events(doc, si, li):
+                seen = {}
+                for idx, (o, _, _) in enumerate(evs):
+                    for s in set(o.get("st", [si + 1])):
+                        if s in seen and seen[s] != idx - 1:
+                            return True
+                        seen[s] = idx
+    return False
 
 
 def build_part(doc):
-    """One Part with one staff per doc staff, voice = 2*staff_index + layer + 1 (unique per staff)."""
+    """One Part; returns (part, expected rows {id: (onset, duration, step, alter, octave, staff)})."""
     import partitura.score as S
     den = denote(doc)
     dens = [1]
@@ -993,8 +1193,10 @@ def build_part(doc):
     part.add(S.KeySignature(doc["key"][0], doc["key"][1] or "major"), 0)
     for st in doc["staves"]:
         part.add(S.Clef(st["n"], st["clef"][0], st["clef"][1], 0), 0)
-    rows = []
+    rows = {}
     k = 0
+    todo = []     # (start, member index, voice, object, end)
+    tuplets = []
     for si, st in enumerate(doc["staves"]):
         for li in range(2):
             prev = None
@@ -1019,6 +1221,7 @@ def build_part(doc):
                 walk(m["content"][si][li], None)
             assert len(flat_evs) == len(evs)
             objs = []
+            voice = voice_of(doc, si, li)
             for (nd, t), e in zip(flat_evs, evs):
                 sd = {"type": SYM[nd["v"]]}
                 if nd.get("d"):
@@ -1026,20 +1229,20 @@ def build_part(doc):
                 if t:
                     sd["actual_notes"], sd["normal_notes"] = t
                 a, b = int(e["onset"] * divs), int((e["onset"] + e["dur"]) * divs)
-                voice = 2 * si + li + 1
+                sts = nd.get("st") or [st["n"]] * max(1, len(e["p"]))
                 these = []
                 if e["k"] == "r":
                     k += 1
-                    o_ = S.Rest(id="r%d" % k, voice=voice, staff=st["n"], symbolic_duration=dict(sd))
-                    part.add(o_, a, b)
+                    o_ = S.Rest(id="r%d" % k, voice=voice, staff=sts[0], symbolic_duration=dict(sd))
+                    todo.append((a, 0, voice, o_, b))
                     these.append(o_)
                 else:
-                    for p in e["p"]:
+                    for j, p in enumerate(e["p"]):
                         k += 1
-                        o_ = S.Note(step=p[0], octave=p[2], alter=p[1], id="n%d" % k, voice=voice, staff=st["n"], symbolic_duration=dict(sd))
-                        part.add(o_, a, b)
+                        o_ = S.Note(step=p[0], octave=p[2], alter=p[1], id="n%d" % k, voice=voice, staff=sts[j], symbolic_duration=dict(sd))
+                        todo.append((a, j, voice, o_, b))
                         these.append(o_)
-                        rows.append((F(a, divs), F(b - a, divs), midi(p), st["n"]))
+                        rows["n%d" % k] = (F(a, divs), F(b - a, divs), p[0], a0(p[1]), p[2], sts[j])
                     if prev is not None:
                         for x, y in zip(prev, these):
                             x.tie_next = y
@@ -1047,24 +1250,52 @@ def build_part(doc):
                 prev = these if (e["k"] != "r" and e["tie"]) else None
                 objs.append(these)
             for a, b in groups:
-                tp = S.Tuplet(objs[a][0], objs[b][0])
-                part.add(tp, objs[a][0].start.t, objs[b][0].end.t)
+                tuplets.append((objs[a][0], objs[b][0]))
+    order = (doc.get("xopts") or {}).get("order", "layer")
+    if order == "time":
+        todo.sort(key=lambda x: (x[0], x[2], x[1]))
+    elif order == "interleave":
+        todo.sort(key=lambda x: (x[0], x[1], x[2]))
+    for a, _, _, o_, b in todo:
+        part.add(o_, a, b)
+    for x, y in tuplets:
+        part.add(S.Tuplet(x, y), x.start.t, y.end.t)
     for mi, t in enumerate(den["mstarts"]):
         end = den["mstarts"][mi + 1] if mi + 1 < len(den["mstarts"]) else den["end"]
         part.add(S.Measure(number=mi + 1), int(t * divs), int(end * divs))
-    return part, sorted(rows)
+    return part, rows
 
 
-def export_roundtrip(doc, fmt):
-    """Returns ('ok', expected rows, loaded rows) | ('err', text).  Rows: (onset, duration, midi pitch, staff)
-    of every Note object (not joined)."""
+def mei_staff_attrs(text):
+    """Independent reading of the exported MEI: note id -> (note@staff, chord@staff, n of the enclosing <staff>)."""
+    from lxml import etree
+    root = etree.fromstring(text.encode("utf-8") if isinstance(text, str) else text)
+    out = {}
+    for el in root.iter():
+        if not isinstance(el.tag, str) or etree.QName(el).localname != "note":
+            continue
+        nid = el.get("{http://www.w3.org/XML/1998/namespace}id")
+        par = el.getparent()
+        chord = par.get("staff") if etree.QName(par).localname == "chord" else None
+        anc = par
+        while anc is not None and etree.QName(anc).localname != "staff":
+            anc = anc.getparent()
+        out[nid] = (el.get("staff"), chord, anc.get("n") if anc is not None else None)
+    return out
+
+
+def export_roundtrip(doc, fmt, want_obs=False):
+    """Returns ('ok', expected rows, loaded rows, file text, obs) | ('err', text).
+    Rows: (onset, duration, step, alter, octave, staff) of every Note object (not joined); MEI keeps the note
+    ids, so the MEI rows are compared id by id, the kern rows as a multiset."""
     import partitura as pt
     import partitura.score as S
     try:
         part, rows = build_part(doc)
     except Exception as ex:
         return ("builderr", "%s: %s" % (type(ex).__name__, ex))
-    path = os.path.join(work_dir(), "export." + ("mei" if fmt == "mei" else "krn"))
+    name = (doc.get("xopts") or {}).get("fname") or "export"
+    path = os.path.join(work_dir(), name + "." + ("mei" if fmt == "mei" else "krn"))
     try:
         if fmt == "mei":
             pt.save_mei(part, path)
@@ -1077,13 +1308,102 @@ def export_roundtrip(doc, fmt):
         tb = traceback.extract_tb(ex.__traceback__)
         return ("err", "%s: %s @ %s:%d %s" % (type(ex).__name__, str(ex)[:200], os.path.basename(tb[-1].filename), tb[-1].lineno, tb[-1].name))
     got = []
-    for p in sc.parts:
+    obs = []   # (part index, id, voice, start, end, divs, staff)
+    for pi, p in enumerate(sc.parts):
         dv = int(p._quarter_durations[0])
         for n in p.iter_all(S.Note, include_subclasses=True):
-            got.append((F(int(n.start.t), dv), F(int(n.end.t - n.start.t), dv), int(n.midi_pitch), n.staff))
+            got.append((n.id, F(int(n.start.t), dv), F(int(n.end.t - n.start.t), dv), n.step.upper(), a0(n.alter), n.octave, n.staff))
+            obs.append((pi, n.id, n.voice, int(n.start.t), int(n.end.t), dv, n.staff))
     with open(path) as f:
         text = f.read()
-    return ("ok", rows, sorted(got), text)
+    return ("ok", rows, got, text, (len(sc.parts), obs))
+
+
+def export_diff(fmt, rows, got):
+    """Direct oracle of the export clause: list of differences (empty = every note kept onset, duration, pitch, staff)."""
+    bad = []
+    if fmt == "mei":
+        g = {}
+        for r in got:
+            g.setdefault(r[0], []).append(r[1:])
+        for i in sorted(rows, key=lambda x: int(x[1:])):
+            if g.get(i) != [rows[i]]:
+                bad.append((i, rows[i], g.get(i)))
+        for i in sorted(set(g) - set(rows)):
+            bad.append((i, None, g[i]))
+    else:
+        a = sorted(rows.values())
+        b = sorted(r[1:] for r in got)
+        if a != b:
+            from collections import Counter
+            ca, cb = Counter(a), Counter(b)
+            for x in sorted((ca - cb).elements()):
+                bad.append((None, x, None))
+            for x in sorted((cb - ca).elements()):
+                bad.append((None, None, [x]))
+    return bad
+
+
+def diff_clause(bad):
+    """Which of onset / duration / pitch / staff differs in the first difference."""
+    for i, e, g in bad:
+        if e is not None and g and len(g) == 1:
+            g = g[0]
+            names = ["onset", "duration", "pitch", "pitch", "pitch", "staff"]
+            return sorted({names[j] for j in range(6) if e[j] != g[j]})
+    return ["notes"]
+
+
+def fmt_xrow(r):
+    if r is None:
+        return "none"
+    return "(onset %s dur %s %s%+d%s staff %s)" % (r[0], r[1], r[2], r[3], r[4], r[5])
+
+
+def xfeatures(doc):
+    f = set()
+    f.add("staves:%d" % len(doc["staves"]))
+    xo = doc.get("xopts") or {}
+    f.add("order=%s" % xo.get("order"))
+    f.add("voices=%s" % xo.get("vmode"))
+    f.add("cross=%s" % xo.get("cross"))
+    if doc["measures"][0].get("pickup"):
+        f.add("pickup")
+    nums = {st["n"] for st in doc["staves"]}
+    for si in range(len(doc["staves"])):
+        for li in range(2):
+            v = voice_of(doc, si, li)
+            for mi, evs in layer_events(doc, si, li):
+                for o, t, _ in evs:
+                    if o.get("mrest"):
+                        f.add("measure_rest")
+                    if o["k"] == "r":
+                        continue
+                    sts = o.get("st") or [si + 1]
+                    if o.get("tie"):
+                        f.add("tie")
+                    if o.get("d"):
+                        f.add("dotted")
+                    if t:
+                        f.add("tuplet")
+                    if o["k"] == "c":
+                        f.add("chord")
+                        if len(set(sts)) > 1:
+                            f.add("chord_members_on_different_staves")
+                    for s in sts:
+                        if s != si + 1:
+                            f.add("cross_staff_%s" % ("chord_member" if o["k"] == "c" else "note"))
+                            if t:
+                                f.add("cross_staff_in_tuplet")
+                            if s == v:
+                                f.add("cross_staff_%s_on_staff_numbered_like_its_voice" % ("chord_member" if o["k"] == "c" else "note"))
+            if v in nums and v != si + 1:
+                f.add("voice_numbered_like_another_staff")
+            if v == si + 1:
+                f.add("voice_numbered_like_its_staff")
+    if interior_gap(doc):
+        f.add("interior_gap_in_voice_staff_pair")
+    return f
 
 
 # --------------------------------------------------------------------------
@@ -1373,7 +1693,7 @@ def run(ctx):
     else:
         ctx.violation("proof obligations of Props/C19.v no longer check: " + why, {"theorem_or_build": why}, no_input=True)
     # ---- export direction
-    run_export(ctx, n_exp)
+    run_export(ctx, n_exp, ok)
     # ---- dispatch by extension (negative side): an unknown extension is rejected, not guessed
     import partitura as pt
     p = os.path.join(work_dir(), "x.c19unknown")
@@ -1387,39 +1707,108 @@ def run(ctx):
     ctx.evaluations += 1
 
 
-def run_export(ctx, n):
+def run_export(ctx, n, ok):
+    xcases, xdocs, scases, sinfo = [], [], [], []
     for fmt in ("mei", "kern"):
         nv = 0
         for i in range(n):
-            w = dict(EXPORT_W)
-            if ctx.rng.random() < 0.3:
-                w.update({"tuplet": 0.0})
-            doc = gen_doc(ctx.rng, "kern" if fmt == "kern" else "mei", w)
+            doc = gen_xdoc(ctx.rng, fmt)
+            if i % 7 == 3:
+                doc["xopts"]["fname"] = ctx.rng.choice(["export.v2", "a.b.c", "export.krn.final", "x.mei.bak"])
             r = export_roundtrip(doc, fmt)
             ctx.evaluations += 1
             ctx.count("export:%s" % fmt)
-            if r[0] == "ok" and r[1] == r[2]:
+            fs = xfeatures(doc)
+            for f_ in fs:
+                ctx.count("export:%s:%s" % (fmt, f_))
+            if r[0] == "builderr":
+                raise RuntimeError("harness could not build the part: " + r[1])
+            bad = export_diff(fmt, r[1], r[2]) if r[0] == "ok" else None
+            if r[0] == "ok" and not bad:
                 if len(r[1]) > 1:
                     ctx.nontrivial("export" + r[3])
                 if i < 1:
-                    ctx.sample({"export": fmt, "file": r[3][-1200:]})
+                    ctx.sample({"export": fmt, "voices": doc["voices"], "xopts": doc["xopts"], "file": r[3][-1500:]})
+                c = c_xcase(doc, fmt, r[4])
+                if c is None:
+                    ctx.count("export:%s:not_mapped_to_model" % fmt)
+                else:
+                    xcases.append(c)
+                    xdocs.append((doc, fmt))
+                if fmt == "mei":
+                    attrs = mei_staff_attrs(r[3])
+                    loaded = {g[0]: g[6] for g in r[2]}
+                    for nid in sorted(r[1], key=lambda x: int(x[1:])):
+                        if nid in attrs and attrs[nid][2] is not None:
+                            na, ca, en = attrs[nid]
+                            scases.append(ctuple([core.copt(na, lambda x: cz(int(x))), core.copt(ca, lambda x: cz(int(x))), cz(int(en)),
+                                                  cz(loaded[nid]), cz(r[1][nid][5])]))
+                            sinfo.append((doc, nid))
                 continue
-            if r[0] == "builderr":
-                raise RuntimeError("harness could not build the part: " + r[1])
             if r[0] == "err":
                 what = "save_%s / reload raised %s" % (fmt, r[1])
-                det = {"error": r[1]}
+                det = {"error": r[1], "clauses": ["error"]}
             else:
-                miss = [x for x in r[1] if x not in r[2]][:3]
-                extra = [x for x in r[2] if x not in r[1]][:3]
-                what = "save_%s then load_score changed notes: %d before / %d after; only before %s; only after %s (onset, duration, pitch, staff)" % (
-                    fmt, len(r[1]), len(r[2]), fmt_any(miss), fmt_any(extra))
-                det = {"before_only": fmt_any(miss), "after_only": fmt_any(extra), "file": r[3]}
+                i0, e0, g0 = bad[0]
+                what = ("save_%s then load_score changed notes [%s]: %d before / %d after, %d differ; first: %s before %s, after %s "
+                        "(voices per staff %s)" % (fmt, ",".join(diff_clause(bad)), len(r[1]), len(r[2]), len(bad),
+                                                   "note %s" % i0 if i0 else "", fmt_xrow(e0), "; ".join(fmt_xrow(x) for x in (g0 or [])) or "none",
+                                                   doc["voices"]))
+                det = {"clauses": diff_clause(bad), "differences": [[i_, fmt_xrow(e_), [fmt_xrow(x) for x in (g_ or [])]] for i_, e_, g_ in bad[:6]],
+                       "file": r[3]}
             small = shrink_export(doc, fmt) if nv < 3 else doc
-            ctx.violation(what[:600], dict({"dir": "export", "fmt": fmt, "doc": small}, **det))
-            nv += 1
+            res = ctx.violation(what[:700], dict({"dir": "export", "fmt": fmt, "doc": small, "interior_gap": interior_gap(small)}, **det))
+            if res != "known":
+                nv += 1
             if nv >= 6:
                 break
+    if not ok:
+        return
+    if xcases:
+        fx = ctx.coq_failing("xdoc", "From PV Require Import Model.C19.", "", xcases,
+                             "fun c => match c with (mei, ms, vs) => check_xdoc mei ms vs end", shard=60)
+        ctx.obligation("correspondence: Model.C19 denotation of the abstract part (onset, duration, exact ticks by the MEI/kern formulas, per voice) "
+                       "= score reloaded after save_mei / save_kern on %d parts" % len(xcases), not fx, fx[:5])
+        for i in fx[:3]:
+            ctx.violation("Coq model and the score reloaded after export disagree on a part the Python oracle accepts (model drift or loader change)",
+                          {"dir": "export", "fmt": xdocs[i][1], "doc": xdocs[i][0], "clauses": ["model"]})
+    if scases:
+        fs_ = ctx.coq_failing("xstaff", "From PV Require Import Model.C19.", "", scases, "check_xstaff", shard=4000)
+        ctx.obligation("correspondence: Model.C19.imp_staff (note@staff, else chord@staff, else n of the enclosing staff, read from the exported "
+                       "file by the harness) = staff loaded by load_mei = staff of the note in the part, on %d exported notes" % len(scases),
+                       not fs_, [sinfo[i][1] for i in fs_[:5]])
+        for i in fs_[:3]:
+            ctx.violation("staff of note %s after save_mei/load: the model's resolution of the exported attributes disagrees with the loaded staff" % sinfo[i][1],
+                          {"dir": "export", "fmt": "mei", "doc": sinfo[i][0], "clauses": ["model", "staff"]})
+
+
+def c_xcase(doc, fmt, loaded):
+    nparts, obs = loaded
+    by_voice = {}
+    if fmt == "mei":
+        for pi, nid, voice, a, b, dv, staff in obs:
+            by_voice.setdefault(voice, []).append((a, b, dv))
+    else:
+        pairs = spine_pairs(doc)
+        if nparts != len(pairs):
+            return None
+        for pi, nid, voice, a, b, dv, staff in obs:
+            v, s = pairs[nparts - 1 - pi]
+            if s != staff:
+                return None
+            by_voice.setdefault(v, []).append((a, b, dv))
+    vs = []
+    for si in range(len(doc["staves"])):
+        for li in range(len(doc["measures"][0]["content"][si])):
+            rows = by_voice.get(voice_of(doc, si, li), [])
+            dvs = {r[2] for r in rows}
+            if len(dvs) > 1:
+                return None
+            dv = dvs.pop() if dvs else 1
+            rr = sorted({(a, b) for a, b, _ in rows})
+            vs.append(ctuple([core.cnat(si), core.cnat(li), cz(dv),
+                              clist([ctuple([cq(F(a, dv)), cq(F(b - a, dv)), cz(b - a)]) for a, b in rr])]))
+    return ctuple([cbool(fmt == "mei"), c_doc(doc), clist(vs)])
 
 
 def shrink_export(doc, fmt):
@@ -1430,25 +1819,84 @@ def shrink_export(doc, fmt):
             r = export_roundtrip(d, fmt)
         except Exception:
             return False
-        return r[0] == "err" or (r[0] == "ok" and r[1] != r[2])
+        return r[0] == "err" or (r[0] == "ok" and bool(export_diff(fmt, r[1], r[2])))
+
+    def clean(d):
+        fix_ties(d)
+        return d
     cur = doc
     if len(doc["measures"]) > 1:
         def wm(ms):
             d = copy.deepcopy(doc)
             d["measures"] = copy.deepcopy(ms)
-            return d
+            return clean(d)
         cur = wm(core.ddmin(doc["measures"], lambda sub: fails(wm(sub))))
-    while len(cur["staves"]) > 1:
-        for si in range(len(cur["staves"])):
+    # cross-staff placements back to the home staff, one element at a time
+    for si in range(len(cur["staves"])):
+        for li in range(2):
+            for mi, evs in layer_events(cur, si, li):
+                for idx in range(len(evs)):
+                    o = evs[idx][0]
+                    if o.get("st") and any(s != si + 1 for s in o["st"]):
+                        d = copy.deepcopy(cur)
+                        o2 = layer_events(d, si, li)[mi][1][idx][0]
+                        o2["st"] = [si + 1] * len(o2["st"])
+                        if fails(d):
+                            cur = d
+    # staves nothing refers to any more
+    si = len(cur["staves"]) - 1
+    while si >= 0 and len(cur["staves"]) > 1:
+        used = any(s == si + 1 for sj in range(len(cur["staves"])) if sj != si for lj in range(2)
+                   for _, evs in layer_events(cur, sj, lj) for o, _, _ in evs for s in o.get("st", []))
+        if not used:
             d = copy.deepcopy(cur)
             del d["staves"][si]
+            if d.get("voices"):
+                del d["voices"][si]
             for m in d["measures"]:
                 del m["content"][si]
+            for k_, st in enumerate(d["staves"]):
+                st["n"] = k_ + 1
+            for sj in range(len(d["staves"])):
+                for lj in range(2):
+                    for _, evs in layer_events(d, sj, lj):
+                        for o, _, _ in evs:
+                            if o.get("st"):
+                                o["st"] = [s - 1 if s > si + 1 else s for s in o["st"]]
             if fails(d):
                 cur = d
-                break
-        else:
-            break
+        si -= 1
+    # second layers
+    cur = _shrink_layers(cur, fails)
+    # single measure left: drop top-level nodes of the layers (with several measures that would open gaps in a voice)
+    if len(cur["measures"]) == 1:
+        for si in range(len(cur["staves"])):
+            for li in range(len(cur["measures"][0]["content"][si])):
+                nodes = cur["measures"][0]["content"][si][li]
+                if len(nodes) < 2:
+                    continue
+
+                def sub_doc(sub):
+                    d = copy.deepcopy(cur)
+                    d["measures"][0]["content"][si][li] = copy.deepcopy(sub)
+                    return clean(d)
+                cur = sub_doc(core.ddmin(nodes, lambda s_: fails(sub_doc(s_))))
+    return cur
+
+
+def _shrink_layers(cur, fails):
+    import copy
+    for si in range(len(cur["staves"])):
+        if all(len(m["content"][si]) == 2 for m in cur["measures"]):
+            for li in (1, 0):
+                d = copy.deepcopy(cur)
+                for m in d["measures"]:
+                    del m["content"][si][li]
+                if d.get("voices"):
+                    d["voices"][si] = [v for j, v in enumerate(d["voices"][si]) if j != li] + [None]
+                if fails(d):
+                    cur = d
+                    break
     return cur
 
 
